@@ -124,6 +124,7 @@ def check_bytes(c, kind, b, must_reject=None, g=None):
             if p is not None:
                 c.expect("psbt.roundtrip 0 " + hx(b), "ok " + hx(p.serialize()), info, proven=False)
                 try:
+                    p.tx.serialize()      # a scope lacking a transaction field gives no transaction
                     txs = "ok " + gen.tx_tokens(p.tx)
                 except Exception:
                     txs = "err"
